@@ -6,6 +6,7 @@ CONSTANTS
   Dev_AddEmptyNameReturns = FALSE
   Dev_QuitRefusedWhenBusy = FALSE
   Dev_SocketEventStartsAll = FALSE
+  Dev_OpsAfterStop = FALSE
 INIT Init
 NEXT Next
 CONSTRAINT Progress
